@@ -90,7 +90,8 @@ int main(int argc, char** argv)
     int rc = cs::Explore("C01", {}, [](cs::Sim& s) {
         cs::Plan p;
         s.kinds = {"spend1", "cb_plus1", "cb_plus1_empty", "cb_minus1", "cb_two_outs_plus1", "out_gt_in", "out_gt_in_split", "out_eq_in",
-                   "out_negative", "out_maxplus1", "outs_sum_overflow", "fee_from_later_invalid", "chain2"};
+                   "out_negative", "out_maxplus1", "outs_sum_overflow", "fee_from_later_invalid", "chain2",
+                   "dup_input", "dup_input3", "dup_same_tx3"}; // duplicated inputs count a coin's value twice (inflation through CheckTxInputs)
         s.parents = {"t0", "t1"};
         s.ev_flush = false; s.ev_invalidate = true; s.ev_reconsider = true;
         p.depth = vx::thorough() ? 4 : 2;
